@@ -238,6 +238,17 @@ class Graph:
             for l, n in counts.items():
                 if n != 1:
                     cache.pop(l, None)
+            # a tuple that is also written component-wise, through a call, or mutably borrowed is not "defined once"
+            for blk in b.blocks:
+                for st in blk["stmts"]:
+                    if st["dst"]["p"]:
+                        cache.pop(st["dst"]["l"], None)
+                    rv = st["rv"]
+                    if rv.get("k") in ("ref", "rawptr") and (rv.get("mut") or rv.get("k") == "rawptr"):
+                        cache.pop(rv["pl"]["l"], None)
+                t = blk["term"]
+                if t["k"] == "call":
+                    cache.pop(t["dst"]["l"], None)
             try:
                 b._tupdefs = cache
             except AttributeError:
@@ -379,9 +390,20 @@ class Graph:
             self.edge((b.id, pl["l"]), Edge(syn, CTRL, SHAPE, None, ty))
         return syn, chain[k:], {"l": syn[1], "p": p[k:]}
 
-    def _read_place(self, b, pl, dst, kind, op, dst_ty, site=None, subst=None, cs=None):
+    def _read_place(self, b, pl, dst, kind, op, dst_ty, site=None, subst=None, cs=None, _depth=0):
         """edges for reading place `pl` into `dst`."""
+        op_ = op
         bid = b.id
+        if pl["p"] and isinstance(pl["p"][0], dict) and "f" in pl["p"][0] and pl["p"][0].get("adt") is None:
+            # `_t.k` of a tuple built exactly once by `_t = (a, b, ..)`: the component is the k-th operand
+            td = self._tuple_def(b, pl["l"])
+            k = pl["p"][0]["f"]
+            if td is not None and k < len(td) and _depth < 8:
+                op = td[k]
+                if op["k"] in ("copy", "move"):
+                    npl = {"l": op["pl"]["l"], "p": list(op["pl"]["p"]) + list(pl["p"][1:])}
+                    self._read_place(b, npl, dst, kind, op_, dst_ty, site, subst, cs, _depth + 1)
+                return
         chain = self._place_chain(b, pl)
         zs = self._zip_source(b, pl, chain) if (bid, pl["l"]) in self.zip_items else None
         if zs is not None:
@@ -489,10 +511,14 @@ class Graph:
                 env_ty = kb.locals[1]["ty"] if len(kb.locals) > 1 else None
                 cin = ("in", ("env", kid), kid)
                 cout = ("out", ("env", kid), kid)
-                for op in rv["ops"]:
-                    self._read_op(b, op, env, DATA, MOVE, env_ty, cs=cin)
+                for j, op in enumerate(rv["ops"]):
+                    # each captured variable has a local of its own in the closure body (facts._split_upvars)
+                    uk = kb.upvar_locals.get(j)
+                    tgt = (kid, uk) if uk is not None else env
+                    tty = kb.locals[uk]["ty"] if uk is not None else env_ty
+                    self._read_op(b, op, tgt, DATA, MOVE, tty, cs=cin)
                     if op["k"] in ("copy", "move") and self._mutb(b, op["pl"]["l"]):
-                        self.edge(env, Edge((bid, op["pl"]["l"]), ALIAS, MOVE, None, self.lty(b, op["pl"]["l"]), cs=cout))
+                        self.edge(tgt, Edge((bid, op["pl"]["l"]), ALIAS, MOVE, None, self.lty(b, op["pl"]["l"]), cs=cout))
                 self.edge(d, Edge(env, ALIAS, MOVE, None, env_ty, cs=cin))
                 self.edge(env, Edge(d, ALIAS, MOVE, None, dst_ty, cs=cout))
         else:
